@@ -354,6 +354,20 @@ func interCase(id, src string, cfg hs.Cfg) caseObs {
 					break
 				}
 			}
+			if o.Class == "" {
+				// appending a newline may change the program itself (`let i+$+` is valid only at EOF): then the class is
+				// decided on the tree: every statement that was not handed out lies on the unterminated last line
+				lastNL := strings.LastIndexByte(src, '\n') + 1
+				onLast := true
+				for _, s := range f.Stmts[len(got):] {
+					if extent(s) <= lastNL {
+						onLast = false
+					}
+				}
+				if onLast {
+					o.Class = "interactive_last_line_without_newline"
+				}
+			}
 		}
 	}
 	// promptness: when the reader is asked for the line after boundary d and the text up to d is a complete program of k
